@@ -1,5 +1,5 @@
 (* Property C10 - every record is counted once or reported skipped; strict mode; no partial output. *)
-From Sfs Require Import Index ArrayM Scalar Spectrum Project Create SampleParse Npy Text Container IndexP ArrayP BinomP ProjectP CreateP CreateSpecP SampleParseP SampleParseGenP ContainerP SampleFieldP.
+From Sfs Require Import Index ArrayM Scalar Spectrum Project Create SampleParse Npy Text Container IndexP ArrayP BinomP ProjectP CreateP CreateSpecP SampleParseP SampleParseGenP ContainerP SampleFieldP Frames FramesP.
 From Coq Require Import Permutation.
 Close Scope string_scope.
 
@@ -75,4 +75,18 @@ Theorem C10_read_error_no_output : forall cfg strict pre post st,
   create_run cfg strict (pre ++ IIoErr :: post) = {| out_spectrum := None; out_summary := None; out_error := Some RErrRead |}.
 Proof. exact (@ioerr_aborts_run). Qed.
 Print Assumptions C10_read_error_no_output.
+
+(* the record framing of the (repaired) BCF reader: a stream cut anywhere but between two records is an error - it never reads as a shorter list of records *)
+Theorem C10_bcf_stream_cut_inside_a_record_is_corrupt : forall rs n,
+  Forall frame_ok rs -> n <= length (frames_bytes rs) -> ~ In n (boundaries rs) ->
+  read_frames (firstn n (frames_bytes rs)) = None.
+Proof. exact (@read_frames_cut_inside). Qed.
+Print Assumptions C10_bcf_stream_cut_inside_a_record_is_corrupt.
+
+(* ... and cut between two records it is the records before the cut *)
+Theorem C10_bcf_stream_cut_between_records : forall rs k,
+  Forall frame_ok rs -> k <= length rs ->
+  read_frames (firstn (length (frames_bytes (firstn k rs))) (frames_bytes rs)) = Some (firstn k rs).
+Proof. exact (@read_frames_cut_at_boundary). Qed.
+Print Assumptions C10_bcf_stream_cut_between_records.
 
